@@ -32,11 +32,13 @@ def desc(ev):
         ev["indep"], json.dumps(ev["result"])[:200])
 
 
-def run_graphs(ctx, order, prop_assumptions):
+def run_graphs(ctx, order, prop_assumptions, small=False):
     """Shared by C07 (ORDER = FALSE) and the merge-position clause of C08 (ORDER = TRUE)."""
     thorough = ctx.tier == "thorough"
     tcfg = TCFG % ("TRUE" if order else "FALSE")
     bounds = [(2, 1, 1)] if not thorough else [(2, 2, 1), (2, 1, 2)]
+    if small:
+        bounds = [(1, 1, 1)] if not thorough else [(2, 1, 1)]
     cases, mruns = [], []
     for a, b, r in bounds:
         run = ctx.tlc_model("MC_YamlGraph", None, cfg_text=CFG % (a, b, r, "TRUE"), label="MC_YamlGraph A<=%d B<=%d R<=%d" % (a, b, r),
@@ -46,7 +48,7 @@ def run_graphs(ctx, order, prop_assumptions):
         if len(cs) != run.distinct:
             raise vlib.MachineryError("export: %d cases for %d states" % (len(cs), run.distinct))
         cases += cs
-    if thorough:
+    if thorough and not small:
         ctx.tlc_model("MC_YamlGraph", None, cfg_text=CFG % (2, 2, 2, "FALSE"), label="MC_YamlGraph A<=2 B<=2 R<=2 (model only)",
                       workers=16, timeout=3400)
         mruns.append(ctx.tlc_runs[-1])
@@ -54,7 +56,7 @@ def run_graphs(ctx, order, prop_assumptions):
         c["rot"] = i
         c["root"] = "R"
     traces, sums = vlib.drive_cases(ctx, "c07", cases, nchunks=12)
-    t2, s2 = vlib.drive_gen(ctx, "c07", 8, extra=["-n", 1500 if thorough else 150])
+    t2, s2 = vlib.drive_gen(ctx, "c07", 8, extra=["-n", (1500 if thorough else 150) // (3 if small else 1)])
     n, bad = vlib.judge(ctx, "Trace_YamlGraph", traces + t2, cfg_text=tcfg, timeout=3000)
     vlib.report_bad(ctx, bad, sig, desc,
                     lambda ev: {"cases": [ev["c"]], "extra": ["-mode", ev["mode"]], "event": {k: ev[k] for k in ev if k != "c"}},
